@@ -29,8 +29,10 @@ class ImmutableDict(Mapping, Generic[KT, VT]):
     ):
         if isinstance(data, dict):
             # do not keep a reference to the caller's dictionary (nor to the mutable
-            # containers inside it): later changes to it must not show through
-            self._data = copy.deepcopy(data)
+            # containers inside it): later changes to it must not show through.
+            # Store a plain dict whatever dict subclass was given: a defaultdict
+            # would insert keys on lookup, an OrderedDict compares order-sensitively.
+            self._data = copy.deepcopy(dict(data))
         elif isinstance(data, ImmutableDict):
             self._data = data._data
         else:
